@@ -70,7 +70,8 @@ pub enum Ev {
     JoinReq { from: u32, to: u32 },
     JoinReply { node: u32, leader: u32, success: bool },
     // ---- node lifecycle / faults ----
-    Start { node: u32, inc: u32, learner: bool },
+    /// `applied`: the index the state machine reports as applied when the node starts (recovered)
+    Start { node: u32, inc: u32, learner: bool, applied: u64 },
     Crash { node: u32, inc: u32 },
     Stop { node: u32, inc: u32 },
     NodeExit { node: u32, inc: u32, fatal: bool, msg: String },
@@ -219,7 +220,7 @@ pub fn ev_json(r: &Rec) -> Value {
         }
         Ev::JoinReq { from, to } => json!({"join_req": [from, to]}),
         Ev::JoinReply { node, leader, success } => json!({"join_reply": node, "leader": leader, "success": success}),
-        Ev::Start { node, inc, learner } => json!({"start": node, "inc": inc, "learner": learner}),
+        Ev::Start { node, inc, learner, applied } => json!({"start": node, "inc": inc, "learner": learner, "recovered_applied": applied}),
         Ev::Crash { node, inc } => json!({"crash": node, "inc": inc}),
         Ev::Stop { node, inc } => json!({"stop": node, "inc": inc}),
         Ev::NodeExit { node, inc, fatal, msg } => json!({"node_exit": node, "inc": inc, "fatal": fatal, "msg": msg}),
